@@ -126,7 +126,7 @@ def run(ctx):
     # R4
     sch = m.get_function('loki/batch/scheduler.py', 'Scheduler.process_transformation')
     src = ast.unparse(sch.node)
-    (ctx.judge('R4', 'plan_mode from strategy') if "'plan_mode': proc_strategy == ProcessingStrategy.PLAN" in src else
+    (ctx.judge('R4', 'plan_mode from strategy') if X.has(src, "'plan_mode': proc_strategy == ProcessingStrategy.PLAN") else
      ctx.violation('R4', 'process_transformation:plan_mode', sch.where, 'plan_mode is not derived from the processing strategy'))
     T = m.get_class('loki/batch/transformation.py', 'Transformation')
     n = 0
